@@ -10,6 +10,11 @@ CHECKS=${@:-$(python3 -c "
 import json,re;d=json.load(open('$DST/meta.json'));print(' '.join(re.match(r'check=(C\d+)',l).group(1) for l in d['checks_run']))")}
 WT=$(mktemp -d /tmp/wt-rechk-XXXXXX); rmdir $WT
 git -C /repo worktree add -q $WT HEAD || exit 9
+# a seed whose premise was removed by a later fix is re-created on its own base: meta.apply_first names a
+# diff (relative to /verif) that is applied before the seed's patch
+FIRST=$(python3 -c "
+import json;print(json.load(open('$DST/meta.json')).get('apply_first',''))")
+if [ -n "$FIRST" ]; then git -C $WT apply /verif/$FIRST || { echo "$NAME apply_first FAILED"; git -C /repo worktree remove --force $WT; exit 9; }; fi
 git -C $WT apply $DST/patch.diff || { echo "$NAME PATCH FAILED"; git -C /repo worktree remove --force $WT; exit 9; }
 : > $WT.res
 for C in $CHECKS; do
